@@ -125,6 +125,17 @@ func c20Op(kind string, seed uint64) string {
 				s.Regions[c20HouseRegion.ID], s.Styles[c20HouseStyle.ID] = c20HouseRegion, c20HouseStyle
 				s.Items[0].Region = c20HouseRegion
 				s.Items[len(s.Items)-1].Style = c20HouseStyle
+				if r.Bool() {
+					s.Metadata = c20HouseMeta // the programme's metadata, the same object for every segment cut from it
+				}
+				if r.Bool() {
+					// the accumulate pattern: the station's opening cues first, then the list's own
+					out := astisub.NewSubtitles()
+					out.Merge(c20HouseCues)
+					out.Merge(s)
+					out.Metadata = s.Metadata
+					s = out
+				}
 			}
 			if ind := r.Intn(6); kind == "write-ttml" && ind > 0 {
 				// the writer's option: it concerns this call only
@@ -212,11 +223,18 @@ func c20ProcessState() string {
 
 // the house layout that the lists of some write operations refer to (read-only for everybody)
 var c20HouseRegion, c20HouseStyle = &astisub.Region{ID: "house"}, &astisub.Style{ID: "house-style"}
+var c20HouseMeta *astisub.Metadata
+var c20HouseCues *astisub.Subtitles
 
 // c20NewHouse: every phase of a round begins with a house layout nobody has touched yet (called before the
 // goroutines of the phase exist)
 func c20NewHouse() {
 	c20HouseRegion, c20HouseStyle = &astisub.Region{ID: "house"}, &astisub.Style{ID: "house-style"}
+	cd := fixedNow
+	c20HouseMeta = &astisub.Metadata{Title: "Programme", Framerate: 25, STLDisplayStandardCode: "0", STLCreationDate: &cd, STLRevisionDate: &cd, Comments: []string{"first line\nsecond line", "kept as it is"}, SSAScriptType: "v4.00+"}
+	c20HouseCues = astisub.NewSubtitles()
+	c20HouseCues.Items = make([]*astisub.Item, 0, 8) // (as a reader leaves it: room to spare behind the cues)
+	c20HouseCues.Items = append(c20HouseCues.Items, textItem(0, time.Second, "station ident"), textItem(time.Second, 2*time.Second, "previously"))
 }
 
 // c20SharedOptions: one slice of writer options (with room to spare) that every goroutine passes as it is
@@ -326,6 +344,7 @@ func c20Run(c *fw.Ctx) fw.Outcome {
 }
 
 func init() {
+	c20NewHouse()
 	fw.Register(&fw.Property{
 		ID:          "C20",
 		Level:       "exploration",
